@@ -12,13 +12,19 @@
     [C03Core.accept] -- the arithmetic skeleton of resolve_regions + finish + the alignment checks
     -- accepts iff the description is realisable.
 
-    NOT PROVED (named so that it is not mistaken for the full claim): that the model's [type_build]
-    restricted to such descriptions computes [C03Core.accept].  That refinement step is *checked* on
-    every run (the full model, the core and the real implementation are evaluated on the same
-    descriptions, exhaustively on the small scope stated in the evidence), not proved; hence the
-    theorem below carries the suffix [_partial] w.r.t. the model and is full w.r.t. the core. *)
+    ALSO PROVED ([C03_model_decision_refines_core], C03Refine.v): the model's own decision code --
+    [resolve_regions] followed by [compute_alignment], for a type without vftable block and without
+    base fields whose field sizes/alignments are known, alignments powers of two, offsets within
+    usize -- returns Ok exactly when [C03Core.accept] returns Some, with the same size and alignment,
+    and an error otherwise (never a deferral or panic).  Together with the core theorem:
+    [C03_model_accepts_iff_realisable].
+    STILL NOT PROVED: the thin wrapper [type_build] around those two functions (attribute scan,
+    statement loop producing the pending list); it is covered by the per-run comparison of the full
+    model, the core and the real implementation on the same descriptions.  The first theorem keeps
+    its [_partial] suffix for that reason. *)
 From Coq Require Import List NArith Bool.
-From PyxisModel Require Import C03Core.
+From PyxisModel Require Import Base Grammar SemTypes Registry Sem PlacementLemmas C03Core.
+From PyxisModel Require C03Refine.
 Import ListNotations.
 Local Open Scope N_scope.
 
@@ -55,3 +61,53 @@ Example C03_example :
   realisableb 4 [f None 4 4] None (Some 4) true = false /\                      (* packed + align *)
   realisableb 8 [f None 4 4] (Some 3) None false = false.                       (* size too small *)
 Proof. vm_compute. repeat split. Qed.
+
+(** the model's decision code computes the core's [accept] *)
+Theorem C03_model_decision_refines_core :
+  forall (R : registry), reg_u8 R -> align_of R (TRaw ["u8"%string]) = Some 1 ->
+  forall st owner v ta pending,
+  st_reg st = R ->
+  Forall (fun p => C03Refine.known R (snd p)) pending ->
+  Forall (fun p => C03Refine.okP (SemLemmas.region_sa R (snd p))) pending ->
+  find r_is_base (map snd pending) = None ->
+  C03Refine.all_fit R 0 pending -> (forall t, ta_size ta = Some t -> t <= usize_max) ->
+  match accept (reg_ptr R) (map (C03Refine.absf R) pending) (ta_size ta) (ta_align ta) (ta_packed ta) with
+  | Some (total, a) =>
+    exists regions, resolve_regions st owner v (ta_size ta) pending None = Ok (st, regions, None, total) /\
+                    compute_alignment R ta regions total = Ok a
+  | None =>
+    (exists m, resolve_regions st owner v (ta_size ta) pending None = Err m) \/
+    (exists regions total m, resolve_regions st owner v (ta_size ta) pending None = Ok (st, regions, None, total) /\
+                             compute_alignment R ta regions total = Err m)
+  end.
+Proof. exact C03Refine.decision_refines. Qed.
+Print Assumptions C03_model_decision_refines_core.
+
+(** hence: the model's decision code accepts exactly the realisable descriptions *)
+Theorem C03_model_accepts_iff_realisable :
+  forall (R : registry), reg_u8 R -> align_of R (TRaw ["u8"%string]) = Some 1 ->
+  forall st owner v ta pending,
+  st_reg st = R ->
+  Forall (fun p => C03Refine.known R (snd p)) pending ->
+  Forall (fun p => C03Refine.okP (SemLemmas.region_sa R (snd p))) pending ->
+  find r_is_base (map snd pending) = None ->
+  C03Refine.all_fit R 0 pending -> (forall t, ta_size ta = Some t -> t <= usize_max) ->
+  ((exists regions total a,
+      resolve_regions st owner v (ta_size ta) pending None = Ok (st, regions, None, total) /\
+      compute_alignment R ta regions total = Ok a)
+   <-> realisable (reg_ptr R) (map (C03Refine.absf R) pending) (ta_size ta) (ta_align ta) (ta_packed ta)).
+Proof.
+  intros R Hu Hua st owner v ta pending HR Hk Hok Hnb Hfit Hts.
+  pose proof (C03Refine.decision_refines R Hu Hua st owner v ta pending HR Hk Hok Hnb Hfit Hts) as Hd.
+  assert (wf_fields (map (C03Refine.absf R) pending)) as Hwf.
+  { unfold wf_fields. apply Forall_map. eapply Forall_impl; [|exact Hok]. intros p [Hp _]. exact Hp. }
+  rewrite <- (accept_iff_realisable _ _ _ _ _ Hwf).
+  destruct (accept (reg_ptr R) (map (C03Refine.absf R) pending) (ta_size ta) (ta_align ta) (ta_packed ta)) as [[total a]|].
+  - destruct Hd as (regions & H1 & H2). split; [intros _; eauto | intros _; eauto].
+  - split.
+    + intros (regions & total & a & H1 & H2). exfalso.
+      destruct Hd as [[m Hm]|(r2 & t2 & m & Hm1 & Hm2)]; [congruence|].
+      rewrite H1 in Hm1. inversion Hm1; subst. congruence.
+    + intros [r Hr]. discriminate.
+Qed.
+Print Assumptions C03_model_accepts_iff_realisable.
